@@ -271,6 +271,33 @@ def run(rep, tier, scratch, only=None):
             if 0 < len(tc.seq(bld['given'])) < len(bld['vals']):
                 rep.nontrivial.add(tc.case_id(c) + json.dumps(bld['given']))
         n += 1
+    if tier == 'quick' and not only:
+        # a sample of the two-port cases: those whose ports are wired to one
+        # store, or one inside the store of the other (the composite state of one
+        # process is then assembled from several ports at one place)
+        t2 = table.run_table(rep, 'InitState', 'InitState_quick2',
+                             table.cfg({'MaxPorts': 2, 'Locs2': 'FALSE'}, LAWS,
+                                       post='ExportInit'), scratch)
+        two = []
+        for c in sorted((t2 or {}).get('cases', []), key=tc.case_id):
+            if len(c['ports']) < 2:
+                continue
+            parents = [tuple(x['node'][:-1]) for x in c['vars']]
+            byport = {}
+            for x in c['vars']:
+                byport.setdefault(x['port'], set()).add(tuple(x['node'][:-1]))
+            ps = list(byport.values())
+            if len(ps) == 2 and any(a == b or a[:len(b)] == b or b[:len(a)] == a
+                                    for a in ps[0] for b in ps[1]):
+                two.append(c)
+        step = max(1, len(two) // 120)
+        for c in two[::step]:
+            for bld in c['builds'][::3]:
+                check_build(rep, c, bld, 'composite')
+                check_build(rep, c, bld, 'engine')
+            n += 1
+        rep.notes['two_port_sample'] = '%d of %d two-port cases sharing a store' % (
+            len(two[::step]), len(two))
     for pr in t['pairs']:
         check_pair(rep, pr)
     rep.traces = n + len(t['pairs'])
